@@ -9,15 +9,75 @@ COMMON_NOTE = ("Trusted: Coq 8.16.1 kernel (+ vm_compute), extraction with ExtrO
                "(coq/Generated regenerated each run) and/or by the sampled correspondence check. See DESIGN.md 8.")
 
 CLAIMS = {
+ "C01": dict(
+    text="Coq theorems (all inputs, no bound): the model lexer returns a token list for every byte string; the model parser returns a result (never Fault, never out of fuel; recursion depth linear in the input) for every byte string; the numeral classifier, the annotation line/fragment parser, the class traversal and alias/element-type resolution terminate without fault for every input/workspace (the crashes repaired by fix: commits are regression theorems). "
+         "Models tied to the code by differential correspondence (tokens, ASTs with every Loc, error lists) plus a server robustness leg (real server in a subprocess, crash/timeout watchdog). Partial: Go stack limits, handlers outside the modelled cores and wall-clock time are not in the model (DESIGN 5/C01, 9).",
+    design="5/C01", technique="Coq proof (fuel/measure arguments, Hoare-style post-conditions over the parser monad) + extracted-model correspondence + subprocess robustness leg"),
  "C02": dict(
     text="Coq theorems about an executable model of offsetForStartAndEnd / ApplyContentChanges / the didOpen-didChange-didSave-didClose cache machine: "
          "for all valid-UTF-8 documents and all conformant multi-document histories the server cache equals the client's text (C02_sync_history_fixed: the full statement, unguarded, for the repaired code now in /repo; "
          "the pre-fix code is kept in the model under fx=false with its exact guard and refutation witnesses); model tied to the code by differential correspondence through the real handlers on every run.",
     design="5/C02", technique="Coq proof (induction over code points and over notification histories; byte sweeps by vm_compute) + extracted-model correspondence through the real LSP handlers"),
+ "C03": dict(
+    text="Coq theorems: numerals - the model of parser_number.go accepts exactly the numerals of the Lua 5.3/5.4 + LuaJIT grammar (C03_number_ok_iff, value exactness, Integer/Float node iff, no fault), keyword table distinct (tied to the generated token table). "
+         "Token-level parser: totality/no-fault (C01) and the model parser is run against the real parser on every case (AST incl. every Loc, error list) together with an independent reference recogniser of the manual's grammar; the grammar completeness/soundness theorems for the full parser are work in progress (coq/WIP, not claimed). Known deviations (bad escapes accepted etc.) are listed findings.",
+    design="5/C03", technique="Coq proof (numeral grammar iff, induction over digit strings) + extracted-model correspondence (model parser = Go parser = reference recogniser on generated programs and mutants)"),
+ "C04": dict(
+    text="Coq theorem C04_tok_range_exact: for every valid-UTF-8 file in the guarded class (no backslash, long-bracket opener, astral/2-byte character, LF-CR pair, BOM) that lexes without lexical error, every token's reported range lies in the document, has start<=end and covers exactly the token text under the LSP reading (UTF-16 columns, LF/CRLF/CR); each excluded class is refuted with a vm_compute witness and listed as a finding. "
+         "Model lexer tied to the Go lexer by correspondence (every token Loc, cross-read by an independent Python slicer). Partial: AST Locs and handler-composed ranges are covered by correspondence legs of C03/C05/C06/C19, not by this theorem.",
+    design="5/C04", technique="Coq proof (induction over the scan with a position invariant; UTF-8/UTF-16 lemmas) + extracted-model correspondence on token ranges"),
+ "C05": dict(
+    text="Executable Coq models of the scope tree, FindMinScope/FindLocVar/IsCorrectPosition, the text cut and the global tables, and the reference binder of Lua scoping (Spec/LuaScope.v); the full statement is stated (C05_define_local_full) and REFUTED for the unchanged code with one vm_compute witness per class (B1-B5, doc_end), guard non-vacuity example; model = code and model = reference outside the classes are decided by correspondence over every identifier cursor of generated programs (deviations must fall in a listed class whose predicate is extracted from Coq). "
+         "Partial: the guarded positive theorem (resolver = binder outside B1-B5 for all programs) is not yet proved; only its statement, the class predicates and the refutations are machine-checked.",
+    design="5/binder", technique="Coq model + reference binder, refutation theorems by vm_compute, class predicates extracted; differential correspondence through the real language server (all cursors)"),
+ "C06": dict(
+    text="Coq theorems for every workspace: every location find-references returns is the target's declaration or a visited occurrence spelled with the queried name (C06_references_shape); full statement (answer = occurrences of the same variable per the reference binder) stated over file bytes and refuted with a witness per class (B1-B5, doc_end, undefined/split/mixed-level global, same position other file); guard non-vacuity example. Correspondence through the real server at every identifier cursor, deviations must fall in a listed class.",
+    design="5/binder", technique="Coq proof (shape theorem) + refutation witnesses by vm_compute + extracted model/reference correspondence through the real server"),
+ "C07": dict(
+    text="Executable Coq models of the usage marking / unused sweep / undefined-global lookup (Model/Usage.v) and of the reference (Spec/LuaUsage.v); refutation theorems with witnesses (multi-local order, position filter after a long comment, later-defined-elsewhere) and a guard example; correspondence of type 2/3/4 diagnostics of the real analysis vs model vs reference on generated workspaces. Partial: the guarded iff theorems (C07_undefined_iff / C07_unused_iff of DESIGN) are not yet proved.",
+    design="5/binder", technique="Coq model + reference, refutation theorems by vm_compute; differential correspondence of published diagnostics"),
+ "C08": dict(
+    text="Coq theorems over ALL event histories of the diagnostics state machine (open/change/save/close/watched create-change-delete): the client view always equals live-or-shown-saved (C08_view_tracks_maps, invariant by induction), and under the stated guard incremental = fresh start (C08_incremental_eq_fresh, C08_unsaved_view); analysis results are Section variables. Repaired defects are regression theorems; remaining refuted classes are listed findings. "
+         "Model tied to the real server (channel.Direct, raw JSON, one process per history) by correspondence after every event and against a fresh server.",
+    design="5/C08", technique="Coq proof (invariant by induction over event histories, refinement to fresh start) + extracted-model correspondence against the real server and a fresh server"),
+ "C09": dict(
+    text="Coq theorems: the global merge is permutation-invariant exactly when the minimal definition is unique (C09_merge_perm*, winner = a minimal element, every minimal element reachable), best-match module choice is permutation-invariant under a unique maximal score (C09_best_match_unique), arrival order of per-file results and the SET of a scope's diagnostics are order-free; refutations with witnesses for ties. Correspondence: exported merge/best-match functions called in explicit orders, whole-server repetitions (set-valued observables, impl subset of model).",
+    design="5/C09", technique="Coq proof (Permutation induction, minimality) + extracted-model correspondence with set-valued observables + repeated fresh-server runs"),
+ "C10": dict(
+    text="Coq theorems about a labelled transition system of the jrpc2 dispatcher (queue, concurrency 4, notification barrier, one mutex): lock discipline implies mutual exclusion and race freedom for all reachable states, no deadlock, serialisability for handlers with one critical section; the handler table is REGENERATED from the Go source by the translator on every run and C10_handlers_locked / C10_only_known_split are re-proved by vm_compute over it. "
+         "Correspondence/search: real server built with -race flooded with overlapping schedules derived from model runs. Partial: locks below the request mutex and the callee-effect table are trusted.",
+    design="5/C10", technique="Coq proof (invariant over reachable states; vm_compute over translator-generated handler table) + race-detector schedules against the real server"),
+ "C11": dict(
+    text="Coq theorems: rename is the same computation as find-references for every request (C11_rename_is_references, C11_run_rename_is_run_refs), hence C11's full statement is equivalent to C06's (C11_full_iff_C06_full); every edit covers the declaration or an occurrence spelled with the old name (C11_edits_cover_old_name); full statement refuted with a witness per class. Correspondence: rename edits of the real server at every identifier cursor vs model vs reference binder.",
+    design="5/binder", technique="Coq proof (equivalence to C06, shape theorem) + refutation witnesses + correspondence through the real server"),
+ "C12": dict(
+    text="Coq theorems for EVERY workspace with distinct file names: highlight(p) = references(p) restricted to the file (C12_highlight_is_refs_in_file), hover says local iff definition answers with a local declaration (C12_hover_local_iff_definition_local); clauses 1-2 (references resolve to the same declaration; p is among the references of its own declaration) are stated over file bytes and refuted with witnesses per class. Correspondence: the four real LSP answers at every identifier cursor; the relation itself is evaluated by Coq-extracted code.",
+    design="5/binder", technique="Coq proof (clauses 3-4 for all workspaces) + refutation witnesses + extracted relation checked on the real server's answers"),
  "C13": dict(
     text="Coq theorems about an executable model of the UTF-8 detector / converter (for all texts: identity on valid UTF-8 without 2-byte characters, exact characterisation of the detector, structural soundness; refutation witness for 2-byte characters = known finding) "
          "and of comment attachment; model tied to the code by differential correspondence (implementation vs. model extracted to OCaml) on every run.",
     design="5/C13", technique="Coq proof (induction over code points; finite byte sweeps by vm_compute lifted with forallb_forall) + extracted-model correspondence"),
+ "C14": dict(
+    text="Coq theorem for every workspace and cursor: every completion label is a global/undefined name of the workspace or a variable of a scope that CONTAINS the cursor declared at or before it - never a later or non-enclosing local (C14_labels_only_visible); completeness is stated (C14_complete_full) and refuted in class B5 with a witness. Correspondence: completion labels of the real server at every prefix end of every identifier (unique-name programs decide; ordinary programs correspondence only).",
+    design="5/binder", technique="Coq proof (soundness of labels via the FindMinScope chain lemma) + refutation witness + correspondence through the real server"),
+ "C15": dict(
+    text="Coq theorems: the class traversal terminates and its member set equals the reflexive-transitive closure of parent/alias edges for every well-formed type map (C15_members_eq_closure, sound+complete, cycles and diamonds included), element/value type resolution is exact and terminating for the repaired code (C15_fixed_*); refutations (same-file shadowing, union order) listed. Correspondence: generated class graphs through completion/definition of the real server in a subprocess.",
+    design="5/C15", technique="Coq proof (closure = traversal by induction with visited-set invariant; measure for termination) + extracted-model correspondence"),
+ "C16": dict(
+    text="Coq theorems: parse(show t) = t for every documented type of unbounded depth and every documented statement form (C16_type_roundtrip, C16_stat_roundtrip*), trailing comment kept, a malformed line affects only itself (C16_line_isolation, C16_isolation_general), parser total; the implementation's own printer round-trips on the guarded fragment with refutations for union-under-array, fun, const. Correspondence: ParseCommentFragment / TypeConvertStr on grammar derivations and corruptions.",
+    design="5/C16", technique="Coq proof (induction on type size with positional claims; Hoare-style totality) + extracted-model correspondence"),
+ "C17": dict(
+    text="Coq theorems: flag lists of initialize and changeConfiguration are equal and flag i <-> type i (over translator-generated tables), the filter law shown(cfg) = filter (not excluded cfg) shown(all_on) under the special-gate guard for all configurations (2^25 by theorem), same result by all three routes, init faults iff a pattern is bad (repaired: never); refutations (five-flag gate, coupled types, dead flag, duplicate file rule) listed. Correspondence: real server under generated configurations vs filtered all-on run.",
+    design="5/C17", technique="Coq proof (filter law for all configurations; ties to generated tables by vm_compute) + extracted-model correspondence through the real server"),
+ "C18": dict(
+    text="Coq theorems: the file index after any insert/remove history equals the index of the surviving files (C18_index_refines_fixed, for the repaired RemoveOneFile), module resolution conforms to the documented mapping on the guarded class, type-6 iff no matching file, the three features agree under a unique best match, answers react to create/delete; refutations (dotted path cut, dofile without suffix, created file not re-analysed, ./ prefix) listed. Correspondence: directory trees and event histories through the real server and the exported index functions.",
+    design="5/C18", technique="Coq proof (refinement of the index to a set of files by induction over histories; string lemmas) + extracted-model correspondence"),
+ "C19": dict(
+    text="Executable Coq model of FindAllSymbol/FindAllLocalVal and the workspace symbol collection, reference declaration list (Spec/SymbolSpec.v); refutation theorem for the child range rewrite and witness lemmas (assigned function range, shadowed top local, lost member); outline and workspace/symbol answers of the real server compared with model and reference on generated files, deviations must fall in listed classes. Partial: the positive completeness/containment theorems of DESIGN are not yet proved.",
+    design="5/C19", technique="Coq model + reference, refutation theorems by vm_compute; differential correspondence of documentSymbol / workspace symbol"),
+ "C20": dict(
+    text="Coq theorems, one per check: reported(type) <-> documented pattern at exactly that node (C20_t21/t15/t16/t13/t7/t8/t20/t5/t14/t19 iff, exact or under a stated guard with non-vacuity examples), the published reports are exactly the checks of visited nodes, each once (C20_once), visited = all nodes under the stated guard; CompExp = structural equality modulo Locs without constructors; 13 refutation witnesses computed from source text, listed as findings; C20_full_refuted. Correspondence: type 5/7/8/13/14/15/16/19/20/21 diagnostics of the real analysis on generated programs.",
+    design="5/C20", technique="Coq proof (per-check iff by induction over the AST, NoDup of reports) + refutation witnesses + extracted-model correspondence"),
 }
 NOT_YET = "check not built yet in this round (planned, see DESIGN.md 5); not a claim that the technique cannot apply"
 
